@@ -5,7 +5,11 @@ fetch_and_dec must return for the take of an outermost release (1), whether the 
 (fetch_and_clear) or a read followed by a clear, the implementation of the three helpers on the non-Windows branch, and the
 order of the scheduling points (yield codes) in processSignal / unblockSignals; for the OS-level layer (coq/C18/Disp.v): the shape
 of sigHandler's ScopedSig (signal(sig, SIG_IGN) first, unconditional signal(sig, sigHandler) in the destructor) and of main()'s
-installation loop (an ignored signal stays ignored, nothing restored at the end, blocked_ = pending_ = 0 at the start).  coq/Properties_C18.v proves that these are the
+installation loop (an ignored signal stays ignored, nothing restored at the end, blocked_ = pending_ = 0 at the start), and
+the registration of the running object (main() starts with initInstance(*this); ~Application -> resetInstance clears instance_s
+only if it points to the object being destroyed; the constructor does not register; no other assignment of instance_s), and
+the alarm (POSIX setAlarm installs sigHandler for SIGALRM unconditionally when sec != 0, then alarm(sec); killAlarm only cancels;
+main() arms the time limit after the installation loop; SIGALRM used nowhere else).  coq/Properties_C18.v proves that these are the
 values the model (coq/C18/Model.v) is written for.
 """
 import os
@@ -113,6 +117,45 @@ def generate(repo):
     d['main_resets_state'] = re.search(r'blocked_\s*=\s*pending_\s*=\s*0\s*;', mn) is not None
     if not d['main_resets_state']:
         problems.append('anchor missing: main() "blocked_ = pending_ = 0;"')
+    # ---- which object instance_s points to (coq/C18/Disp.v, rst): main() registers, ~Application resets only its own registration
+    ri = body_of(code, r'void\s+Application::resetInstance\s*\(\s*Application\s*&\s*\w*\s*\)\s*\{')
+    ii = body_of(code, r'void\s+Application::initInstance\s*\(\s*Application\s*&\s*\w*\s*\)\s*\{')
+    gi = body_of(code, r'Application\s*\*\s*Application::getInstance\s*\(\s*\)\s*\{')
+    d['reset_only_if_registered'] = ri is not None and re.fullmatch(
+        r'\s*if\s*\(\s*instance_s\s*==\s*&\s*app\s*\)\s*\{?\s*instance_s\s*=\s*(?:0|NULL|nullptr)\s*;\s*\}?\s*', ri) is not None
+    if not d['reset_only_if_registered']:
+        problems.append('anchor missing: resetInstance(Application& app) "if (instance_s == &app) { instance_s = 0; }"')
+    d['dtor_resets'] = re.search(r'Application::~Application\s*\(\s*\)\s*\{\s*resetInstance\(\s*\*this\s*\)\s*;\s*\}', code) is not None
+    if not d['dtor_resets']:
+        problems.append('anchor missing: "Application::~Application() { resetInstance(*this); }"')
+    d['main_registers'] = (re.match(r'\s*initInstance\(\s*\*this\s*\)\s*;', mn) is not None and ii is not None and
+                           re.fullmatch(r'\s*instance_s\s*=\s*&\s*app\s*;\s*', ii) is not None)
+    if not d['main_registers']:
+        problems.append('anchor missing: main() starts with initInstance(*this); and initInstance sets instance_s = &app')
+    d['ctor_registers'] = re.search(r'Application::Application\s*\(\s*\)\s*:[^{;]*\{\s*\}', code) is None
+    if d['ctor_registers']:
+        problems.append('anchor missing: Application::Application() has an empty body (the constructor does not register the object)')
+    if len(re.findall(r'\binstance_s\s*=[^=]', code)) != 3:
+        problems.append('instance_s is assigned elsewhere than in its definition, initInstance and resetInstance')
+    if gi is None or not re.fullmatch(r'\s*return\s+instance_s\s*;\s*', gi):
+        problems.append('anchor missing: getInstance() "return instance_s;"')
+    # ---- setAlarm / killAlarm (POSIX branch) and main()'s time limit (coq/C18/Disp.v: FSetAlarm, os_main tl)
+    m_posix = re.search(r'#if\s*!defined\(_WIN32\)\s*int\s+Application::setAlarm\s*\(\s*unsigned\s+sec\s*\)\s*\{(.*?)\}\s*#else', code, re.S)
+    sa = m_posix.group(1) if m_posix else None
+    d['setalarm_installs_unconditionally'] = sa is not None and re.fullmatch(
+        r'\s*if\s*\(\s*sec\s*\)\s*\{\s*signal\(\s*SIGALRM\s*,\s*&Application::sigHandler\s*\)\s*;\s*\}\s*alarm\(\s*sec\s*\)\s*;\s*return\s+1\s*;\s*', sa) is not None
+    if not d['setalarm_installs_unconditionally']:
+        problems.append('anchor missing: POSIX setAlarm "if (sec) { signal(SIGALRM, &Application::sigHandler); } alarm(sec); return 1;"')
+    ka = body_of(code, r'void\s+Application::killAlarm\s*\(\s*\)\s*\{')
+    d['killalarm_only_cancels'] = ka is not None and re.fullmatch(r'\s*if\s*\(\s*timeout_\s*>\s*0\s*\)\s*\{\s*setAlarm\(\s*0\s*\)\s*;\s*\}\s*', ka) is not None
+    if not d['killalarm_only_cancels']:
+        problems.append('anchor missing: killAlarm "if (timeout_ > 0) { setAlarm(0); }"')
+    d['main_arms_time_limit'] = re.search(
+        r'\}\s*\}\s*if\s*\(\s*timeout_\s*\)\s*\{\s*if\s*\(\s*setAlarm\(\s*timeout_\s*\)\s*==\s*0\s*\)\s*\{[^}]*\}\s*\}', mn) is not None
+    if not d['main_arms_time_limit']:
+        problems.append('anchor missing: main() "if (timeout_) { if (setAlarm(timeout_) == 0) { ... } }" after the installation loop')
+    if len(re.findall(r'\bSIGALRM\b', re.sub(r'#if\s*!defined\(SIGALRM\).*?#endif', '', code, flags=re.S))) != 2:
+        problems.append('SIGALRM is used elsewhere than in the POSIX setAlarm (handler installation) and the Windows alarm thread')
     ys_ps = [int(x) for x in re.findall(r'POTASSCO_VERIF_YIELD(?:_C)?\((\d+)\)', ps)]
     ys_ub = [int(x) for x in re.findall(r'POTASSCO_VERIF_YIELD(?:_C)?\((\d+)\)', ub)]
     d['yields_process'] = ys_ps
@@ -130,8 +173,14 @@ def generate(repo):
            'Definition yields_process : list Z := %s.\nDefinition yields_unblock : list Z := %s.\n'
            'Definition handler_ignores_first : bool := %s.\nDefinition handler_reinstalls_always : bool := %s.\n'
            'Definition main_keeps_ignored : bool := %s.\nDefinition main_restores_dispositions : bool := %s.\n'
-           'Definition main_resets_state : bool := %s.\n' % (
+           'Definition main_resets_state : bool := %s.\n'
+           'Definition reset_only_if_registered : bool := %s.\nDefinition dtor_resets : bool := %s.\n'
+           'Definition main_registers : bool := %s.\nDefinition ctor_registers : bool := %s.\n'
+           'Definition setalarm_installs_unconditionally : bool := %s.\nDefinition killalarm_only_cancels : bool := %s.\n'
+           'Definition main_arms_time_limit : bool := %s.\n' % (
                d.get('deliver_at', -1), d.get('release_at', -1), 'true' if d.get('take_atomic') else 'false',
                zl(ys_ps), zl(ys_ub), cb(d.get('handler_ignores_first')), cb(d.get('handler_reinstalls_always')),
-               cb(d.get('main_keeps_ignored')), cb(d.get('main_restores_dispositions')), cb(d.get('main_resets_state'))))
+               cb(d.get('main_keeps_ignored')), cb(d.get('main_restores_dispositions')), cb(d.get('main_resets_state')),
+               cb(d.get('reset_only_if_registered')), cb(d.get('dtor_resets')), cb(d.get('main_registers')), cb(d.get('ctor_registers')),
+               cb(d.get('setalarm_installs_unconditionally')), cb(d.get('killalarm_only_cancels')), cb(d.get('main_arms_time_limit'))))
     return coq, d, problems
